@@ -534,7 +534,7 @@ impl Config for SplitTreesOverStates {
 // (b) real pools: public API vs sequential counterparts (global registry)
 // ---------------------------------------------------------------------------
 
-const GMAX: usize = 1 << 16;
+const GMAX: usize = 1 << 22;
 static GREG: [AtomicU8; GMAX] = [const { AtomicU8::new(0) }; GMAX];
 static GNEXT: AtomicU32 = AtomicU32::new(0);
 static GERR: AtomicU32 = AtomicU32::new(0);
@@ -559,7 +559,7 @@ pub struct GEl {
 impl GEl {
     fn new(id: u16) -> Self {
         let s = GNEXT.fetch_add(1, Ordering::SeqCst);
-        assert!((s as usize) < GMAX);
+        assert!((s as usize) < GMAX, "MACHINERY: global element registry exhausted");
         GREG[s as usize].store(1, Ordering::SeqCst);
         GEl { id, serial: s }
     }
